@@ -73,5 +73,19 @@ let handle = function
   | L [A "declare"; specs] ->
       let (_, mros) = declare_all [] (to_list (to_list to_str) specs) in
       of_list (of_list of_str) mros
+  (* (dispatch fuel ((cls snake)..) ((w (method..))..) ((gid ((cls (base..))..))..) ((decl w) | (look w gid cls) ..))
+     tables missing an entry are errors (fail closed); a result (some ()) means the search ran out of fuel *)
+  | L [A "dispatch"; fuel; snk; wk; gs; steps] ->
+      let snaketab = to_list (to_pair to_str to_str) snk in
+      let snake c = match List.assoc_opt c snaketab with Some s -> s | None -> failwith "no-snake" in
+      let wtab = to_list (to_pair to_n (to_list to_str)) wk in
+      let has w m = match List.assoc_opt w wtab with Some l -> List.mem m l | None -> failwith "no-walker" in
+      let gtab = to_list (to_pair to_int (to_list (to_pair to_str (to_list to_str)))) gs in
+      let graph i = match List.assoc_opt i gtab with Some g -> g | None -> failwith "no-graph" in
+      let step = function
+        | L [A "decl"; w] -> WDeclare (to_n w)
+        | L [A "look"; w; gi; c] -> WLook (to_n w, graph (to_int gi), to_str c)
+        | _ -> failwith "step" in
+      of_list (of_opt of_str) (run_walkers (to_nat fuel) snake has [] (to_list step steps))
   | _ -> A "bad-request"
 let () = serve handle
